@@ -148,8 +148,8 @@ Fixpoint convert (orc : oracles) (base_tag : str) (val : str) (ty : vtype) (cur 
   | TFunc _ _ => Ok (cur, None)
   end.
 
-(* ---- convertToString: (text, optional foreign error); Panic for FormatInt with an
-   illegal base, a nil *Custom marshalled, or an oracle miss *)
+(* ---- convertToString: (text, optional foreign error); Panic for a nil *Custom
+   marshalled, or an oracle miss *)
 Definition to_string_kind (orc : oracles) (base_tag : str) (k : kind) (v : value) : res (str * option str) :=
   match k, v with
   | KCustom, VStr s => Ok (custom_marshal_prefix ++ s, None)
@@ -164,9 +164,11 @@ Definition to_string_kind (orc : oracles) (base_tag : str) (k : kind) (v : value
     match get_base base_tag with
     | inr e => Ok ([], Some e)
     | inl base =>
+      (* getFormatBase: base 0 renders as decimal; other illegal bases are an error *)
+      let base := if Z.eqb base 0 then 10%Z else base in
       match format_int z base with
       | Some t => Ok (t, None)
-      | None => Panic (s2l "strconv: illegal AppendInt/FormatInt base")
+      | None => Ok ([], Some (s2l "invalid base " ++ dec_of_Z base))
       end
     end
   | KFloat _, VFloat c => Ok (c, None)
